@@ -101,9 +101,19 @@ DropCall(feed) == IF feed = <<>> THEN <<>>
 \* keys of a dictionary with at most one entry, as a sequence
 SortedKeys(S) == IF S = {} THEN <<>> ELSE <<CHOOSE y \in S : TRUE>>
 
+\* MaxlengthAnyGE: the integer left by maxlength is only bounded below, so the
+\* reference decides nothing about an operator that consumes it as a number;
+\* operators that only move, store or classify values are unaffected.
+Movers == {"pop", "dup", "exch", "count", "mark", "[", "<<", "]", ">>", "cleartomark", "def",
+           "currentdict", "currentfile", "type", "matrix", "end"}
+TouchesAnyGE(st, op) ==
+    /\ op \notin Movers
+    /\ \E i \in 0..3 : i < Len(st) /\ A(st, i).t = "anyge"
+
 RECURSIVE ExecOp(_, _)
 ExecOp(s, op) ==
-    IF op \in DataOps THEN
+    IF TouchesAnyGE(s.ost, op) THEN Skip(s)
+    ELSE IF op \in DataOps THEN
         LET r == DataOp(op, s.ost, s.heap, s.dst)
         IN IF r.ok THEN [s EXCEPT !.ost = r.st, !.heap = r.h, !.dst = r.ds]
            ELSE IF r.errs = {"?skip"} THEN Skip(s)
